@@ -21,29 +21,33 @@ Open Scope N_scope.
 
 (* Store.ReviseContract's replay of an action list the updater accepted, on a table that
    equals the updater's old list: exactly the fold of the actions if every sector it needs
-   is stored, a store error (and nothing else) otherwise. *)
-Theorem c03_replay_is_fold : forall stored acts l l',
-  fold_upd l acts = Ok l' ->
-  store_replay stored (tbl_of l) l acts None =
-  if acts_stored stored acts then Ok (tbl_of l', None) else Err EOther.
+   is stored, a store error (and nothing else) otherwise.  [ns] is the contract-sector counter
+   (metricContractSectors); it follows the list length and cannot underflow while it is at
+   least the length of the list. *)
+Theorem c03_replay_is_fold : forall stored acts l l' ns,
+  fold_upd l acts = Ok l' -> nlen l <= ns ->
+  store_replay stored (tbl_of l) l ns acts None =
+  if acts_stored stored acts then Ok ((tbl_of l', ns + nlen l' - nlen l), None) else Err EOther.
 Proof. exact replay_char. Qed.
 Print Assumptions c03_replay_is_fold.
 
-Theorem c03_replay_refines_list : forall stored acts l l',
-  fold_upd l acts = Ok l' -> acts_stored stored acts = true ->
-  store_replay stored (tbl_of l) l acts None = Ok (tbl_of l', None).
+Theorem c03_replay_refines_list : forall stored acts l l' ns,
+  fold_upd l acts = Ok l' -> nlen l <= ns -> acts_stored stored acts = true ->
+  store_replay stored (tbl_of l) l ns acts None = Ok ((tbl_of l', ns + nlen l' - nlen l), None).
 Proof. exact replay_refines_list. Qed.
 Print Assumptions c03_replay_refines_list.
 
 (* updateV2ContractSectors: the diff against the old list leaves exactly the new list *)
-Theorem c03_v2_replacement_exact : forall stored old new,
-  all_stored stored new = true ->
-  v2_diff stored (tbl_of old) old new None = Ok (tbl_of new, None).
+Theorem c03_v2_replacement_exact : forall stored old new ns,
+  nlen old <= ns -> all_stored stored new = true ->
+  v2_diff stored (tbl_of old) old new ns None = Ok ((tbl_of new, ns + nlen new - nlen old), None).
 Proof. exact v2_diff_correct. Qed.
 Print Assumptions c03_v2_replacement_exact.
 
-Theorem c03_v2_replacement_exact_or_rejected : forall stored old new t k,
-  v2_diff stored (tbl_of old) old new None = Ok (t, k) -> t = tbl_of new /\ k = None.
+Theorem c03_v2_replacement_exact_or_rejected : forall stored old new ns t ns' k,
+  nlen old <= ns ->
+  v2_diff stored (tbl_of old) old new ns None = Ok ((t, ns'), k) ->
+  t = tbl_of new /\ ns' = ns + nlen new - nlen old /\ k = None.
 Proof. exact v2_diff_ok_inv. Qed.
 Print Assumptions c03_v2_replacement_exact_or_rejected.
 
@@ -135,6 +139,13 @@ Theorem c03_v2_revision_accepted : forall meta s id e c newroots, reach meta s -
   cache_get (fst (step s (Revise2 id c newroots (meta newroots) true true None))) id = newroots.
 Proof. exact c03_revise2_accepted_l. Qed.
 Print Assumptions c03_v2_revision_accepted.
+
+(* no disciplined operation panics in a reachable state (no counter underflow, no index out
+   of range in the replay), so "rejected or failed" really is an error return *)
+Theorem c03_disciplined_never_panics : forall meta s o, reach meta s -> disc meta s o ->
+  is_panic_obs (snd (step s o)) = false.
+Proof. exact c03_no_panic_l. Qed.
+Print Assumptions c03_disciplined_never_panics.
 
 (* Restart (reopen the database, NewManager): the database is untouched and every contract that
    has not been superseded is served the same list. *)
